@@ -84,6 +84,12 @@ class Interp(object):
         'math.isnan': self._isnan,
         're.escape': re.escape,
         're.compile': re.compile,
+        're.match': re.match,
+        're.search': re.search,
+        're.fullmatch': re.fullmatch,
+        **{'re.' + f: getattr(re, f) for f in (
+            'MULTILINE', 'M', 'IGNORECASE', 'I', 'DOTALL', 'S', 'VERBOSE', 'X',
+            'ASCII', 'A', 'UNICODE', 'U')},
         'numbers.Number': NUMBER,
         'sorted': sorted,
         'sum': sum,
